@@ -27,7 +27,8 @@ def run_case(spec, cdir, monitors, keep=False):
                 break
             R.set_restart_steps(cdir, seg["steps"])
         try:
-            out = rig.run_segment(inp, kill_after=seg.get("kill_after"))
+            out = rig.run_segment(inp, kill_after=seg.get("kill_after"),
+                                  kill_in=seg.get("kill_in"))
         except R.AbortCase as exc:
             out = "aborted: " + str(exc)
         except BaseException as exc:
